@@ -287,7 +287,7 @@ def vjp(ctx, world):
             ctx.ob("A3.vjp", construct_of(e), None, e.loc, sample=nf + " " + "; ".join(S.why))
         else:
             ctx.ob("A3.vjp", construct_of(e), True, e.loc, sample=nf)
-    ctx.floor("A3.vjp instances", n, 36)
+    ctx.floor("A3.vjp instances", n, 32)
 
 
 def jvp(ctx, world):
